@@ -1,4 +1,5 @@
 //! Writers for the file formats (independent of calamine's parsers).
 pub mod xml;
+pub mod ods;
 pub mod xlsx;
 pub mod zipw;
